@@ -29,6 +29,9 @@ pub static BOXED: AtomicBool = AtomicBool::new(false);
 /// the k-th clone (0-based, counted per execution) panics; negative = never
 pub static CLONE_PANIC_AT: AtomicI64 = AtomicI64::new(-1);
 pub static CLONE_CALLS: AtomicI64 = AtomicI64::new(0);
+/// the k-th destructor run of an original element (0-based, per execution) panics after it has been counted; negative = never
+pub static DROP_PANIC_AT: AtomicI64 = AtomicI64::new(-1);
+pub static DROP_CALLS: AtomicI64 = AtomicI64::new(0);
 /// salt of the current execution (payload = mix(id, salt))
 pub static SALT: AtomicU64 = AtomicU64::new(0);
 
@@ -43,6 +46,8 @@ pub fn ledger_reset(n_ids: usize, salt: u64) {
     GARBAGE_DROPS.store(0, Relaxed);
     CLONE_PANIC_AT.store(-1, Relaxed);
     CLONE_CALLS.store(0, Relaxed);
+    DROP_PANIC_AT.store(-1, Relaxed);
+    DROP_CALLS.store(0, Relaxed);
     SALT.store(salt, Relaxed);
 }
 
@@ -94,6 +99,12 @@ impl Drop for Tk {
         let i = self.id as usize;
         if self.gen == 0 {
             DROPPED[i].fetch_add(1, Relaxed);
+            let k = DROP_CALLS.fetch_add(1, Relaxed);
+            if k == DROP_PANIC_AT.load(Relaxed) && !std::thread::panicking() {
+                // the canary is released first: the panic must not leak it
+                self.canary = None;
+                std::panic::resume_unwind(Box::new(Injected("drop")));
+            }
         } else {
             CLONE_DROPPED[i].fetch_add(1, Relaxed);
         }
@@ -140,6 +151,8 @@ pub struct SrcInfo {
     pub exact_len: bool,
     /// first position this iterator can deliver (non-zero for a clone of a progressed iterator)
     pub start_pos: usize,
+    /// the wrapped iterator is not fused: polled after its end it yields ghost elements with ids >= len
+    pub non_fused: bool,
 }
 
 /// Identity of one delivered item.
